@@ -24,6 +24,7 @@ type Target struct {
 	Outs      []string          `json:"outs,omitempty"`
 	DirOut    string            `json:"dir_out,omitempty"`   // a directory output (listed in outs)
 	ExtraDir  bool              `json:"extra_dir,omitempty"` // uses output_dirs to emit one more file
+	PostBuild bool              `json:"post_build,omitempty"` // a post-build function adds one more output, named by what the command printed
 	Op        string            `json:"op,omitempty"`
 	Salt      string            `json:"salt,omitempty"`
 	Binary    bool              `json:"binary,omitempty"`
@@ -284,7 +285,14 @@ func (r *Repo) Command(t *Target) string {
 		}
 	}
 	if t.ExtraDir {
-		c = append(c, `mkdir -p _od`, fmt.Sprintf(`body | cksum > "_od/extra_%s.txt"`, t.Name))
+		// one file with a fixed name and one whose name follows the salt, so that the set of names recorded in
+		// the target's build metadata (output_dirs outs) differs between states of the same target
+		c = append(c, `mkdir -p _od`, fmt.Sprintf(`body | cksum > "_od/extra_%s.txt"`, t.Name), fmt.Sprintf(`echo x > "_od/x_%s_%s.txt"`, t.Name, t.Salt))
+	}
+	if t.PostBuild {
+		// The name of this output is only known from the command's stdout (recorded in the build metadata and
+		// replayed to the post-build function when the target is restored from a cache); it follows the salt.
+		c = append(c, fmt.Sprintf(`echo pbx > "%s"`, t.postBuildOut()), fmt.Sprintf(`echo "%s"`, t.postBuildOut()))
 	}
 	if t.Fail == "missingout" {
 		c = append(c, fmt.Sprintf(`rm -rf "%s"`, t.Outs[0]))
@@ -297,6 +305,11 @@ func (r *Repo) Command(t *Target) string {
 	}
 	return strings.Join(c, "; ")
 }
+
+func (t *Target) postBuildOut() string { return fmt.Sprintf("pb_%s_%s.txt", t.Name, t.Salt) }
+
+// postBuildDef is the post-build function used by PostBuild targets, defined at the top of their BUILD file.
+const postBuildDef = "def _pb_add_outs(name, output):\n    for line in output:\n        if line.startswith(\"pb_\"):\n            add_out(name, line)\n\n"
 
 // Render returns the BUILD-file text of one target. It doubles as the target's definition fingerprint.
 func (r *Repo) Render(t *Target) string {
@@ -324,7 +337,7 @@ func (r *Repo) Render(t *Target) string {
 			srcs = append(srcs, localLabel(t.Pkg, l))
 		}
 		rule := "genrule"
-		if r.Defs {
+		if r.Defs && !t.PostBuild {
 			rule = "mygen"
 		}
 		w("%s(\n    name = %s,\n    srcs = %s,\n    outs = %s,\n    cmd = %s,\n", rule, q(t.Name), qlist(trimSlash(srcs)), qlist(t.Outs), q(r.Command(t)))
@@ -339,6 +352,9 @@ func (r *Repo) Render(t *Target) string {
 		}
 		if t.ExtraDir {
 			w("    output_dirs = [\"_od\"],\n")
+		}
+		if t.PostBuild {
+			w("    post_build = _pb_add_outs,\n")
 		}
 		if len(t.Env) > 0 {
 			keys := make([]string, 0, len(t.Env))
@@ -376,8 +392,16 @@ func (r *Repo) BuildFiles() map[string]string {
 	out := map[string]string{}
 	for _, t := range r.Targets {
 		p := filepath.Join(t.Pkg, "BUILD")
-		if r.Defs && out[p] == "" {
-			out[p] = "subinclude(\"//defs:defs\")\n\n"
+		if out[p] == "" {
+			if r.Defs {
+				out[p] = "subinclude(\"//defs:defs\")\n\n"
+			}
+			for _, x := range r.Targets {
+				if x.Pkg == t.Pkg && x.PostBuild {
+					out[p] += postBuildDef
+					break
+				}
+			}
 		}
 		out[p] += r.Render(t) + "\n"
 	}
@@ -494,7 +518,10 @@ func (r *Repo) OutputRoots(t *Target) []string {
 			out = append(out, filepath.Join(base, t.Pkg, o))
 		}
 		if t.ExtraDir {
-			out = append(out, filepath.Join(base, t.Pkg, "extra_"+t.Name+".txt"))
+			out = append(out, filepath.Join(base, t.Pkg, "extra_"+t.Name+".txt"), filepath.Join(base, t.Pkg, fmt.Sprintf("x_%s_%s.txt", t.Name, t.Salt)))
+		}
+		if t.PostBuild {
+			out = append(out, filepath.Join(base, t.Pkg, t.postBuildOut()))
 		}
 	}
 	sort.Strings(out)
@@ -512,6 +539,7 @@ type GenOpts struct {
 	MinTargets          int
 	DepOneIn            int  // a target takes each earlier target as a source with probability 1/DepOneIn (default 4)
 	Subinclude          bool // packages subinclude a generated build_defs file (a build is needed during parsing)
+	PostBuild           bool // some genrules get a post-build function that adds an output named by the command's stdout
 }
 
 var defaultOps = []string{"full", "full", "names", "content", "wc", "sortu", "head", "const"}
@@ -611,6 +639,9 @@ func Generate(rng *rand.Rand, o GenOpts) *Repo {
 			if o.DirOuts && rng.Intn(6) == 0 {
 				t.ExtraDir = true
 			}
+			if o.PostBuild && rng.Intn(4) == 0 {
+				t.PostBuild = true
+			}
 			if rng.Intn(5) == 0 {
 				t.Env = map[string]string{"VAR_A": pick(rng, []string{"1", "two", "x y"})}
 			}
@@ -623,7 +654,7 @@ func Generate(rng *rand.Rand, o GenOpts) *Repo {
 			if o.Tools && rng.Intn(6) == 0 && len(t.SrcLabels) == 0 {
 				t.IsTool = true
 				t.Outs = []string{fmt.Sprintf("tool%d.sh", i)}
-				t.DirOut, t.ExtraDir, t.Env, t.Binary = "", false, nil, false
+				t.DirOut, t.ExtraDir, t.Env, t.Binary, t.PostBuild = "", false, nil, false, false
 			}
 			if !t.IsTool && o.Tools {
 				for _, prev := range r.Targets {
